@@ -1,5 +1,4 @@
-\* quick: every (old, new) pair of iauth_xquery sections over {a.svc, b.svc} x {login, login-ipr, dronecheck, combined,
-\* bogus, absent} (36 sections, 1 296 pairs), earlier client on, one reload at any point of its activity, scripted probe
+\* thorough: every pair over {a.svc, b.svc, c.svc} x 5 type words + absent (216 sections, 46 656 pairs), no earlier client
 \* (checks/c17.py writes the same text with its own EmitMod / KeepOld)
 CONSTANTS
   Services <- NoServices
@@ -8,11 +7,11 @@ CONSTANTS
   MaxInst = 1
   MaxPw = 1
   EmitMod = 0
-  NameOrder <- Names2
+  NameOrder <- Names3
   RBug <- RB_none
   TypeWords <- Words5
   MaxRl = 1
-  PreOn = TRUE
+  PreOn = FALSE
   Free = FALSE
   KeepOld = FALSE
 INIT RInit
